@@ -1310,6 +1310,30 @@ func verifyBlindedMessages(proofs cashu.Proofs, blindedMessages cashu.BlindedMes
 		}
 	}
 
+	// if locktime is expired only the refund rule applies, same as for the inputs.
+	// If there is no refund pubkey anyone can spend, if there is check its signature
+	if p2pkTags.Locktime > 0 && time.Now().Local().Unix() > p2pkTags.Locktime {
+		if len(p2pkTags.Refund) == 0 {
+			return nil
+		}
+		for _, bm := range blindedMessages {
+			B_bytes, err := hex.DecodeString(bm.B_)
+			if err != nil {
+				return cashu.BuildCashuError(err.Error(), cashu.StandardErrCode)
+			}
+			hash := sha256.Sum256(B_bytes)
+
+			var witness nut11.P2PKWitness
+			if err := json.Unmarshal([]byte(bm.Witness), &witness); err != nil {
+				return nut11.InvalidWitness
+			}
+			if !nut11.HasValidSignatures(hash[:], witness.Signatures, 1, p2pkTags.Refund) {
+				return nut11.NotEnoughSignaturesErr
+			}
+		}
+		return nil
+	}
+
 	for _, bm := range blindedMessages {
 		B_bytes, err := hex.DecodeString(bm.B_)
 		if err != nil {
